@@ -165,3 +165,47 @@ Definition aval_truthy (v : aval) : bool :=
   | VList l => negb (py_is_nil l)
   | VMap kv => negb (py_is_nil kv)
   end.
+
+(* d[k] *)
+Definition aval_get (d : aval) (k : string) : result aval :=
+  match d with
+  | VMap kv => match find (fun p => String.eqb (fst p) k) kv with Some p => Ok (snd p) | None => Err KeyError end
+  | _ => Err TypeError
+  end.
+
+(* sorted(l, key=...) for string keys: STABLE (equal keys keep their order), as Python's sort is.
+   Elements are inserted from left to right, each after the elements whose key is not greater. *)
+Fixpoint py_insert_str {A} (key : A -> string) (x : A) (l : list A) : list A :=
+  match l with
+  | [] => [x]
+  | y :: ys => if str_ltb (key x) (key y) then x :: l else y :: py_insert_str key x ys
+  end.
+Definition py_sorted_str {A} (key : A -> string) (l : list A) : list A :=
+  fold_left (fun acc x => py_insert_str key x acc) l [].
+
+(* sorted(l) with the elements' own `<`: STABLE insertion from left to right, each element after those
+   that are not greater *)
+Fixpoint py_insert_lt {A} (ltb : A -> A -> bool) (x : A) (l : list A) : list A :=
+  match l with
+  | [] => [x]
+  | y :: ys => if ltb x y then x :: l else y :: py_insert_lt ltb x ys
+  end.
+Definition py_sorted_lt {A} (ltb : A -> A -> bool) (l : list A) : list A :=
+  fold_left (fun acc x => py_insert_lt ltb x acc) l [].
+
+(* l1 == l2 on lists: same length, elementwise == *)
+Fixpoint py_list_eqb {A} (eqb : A -> A -> bool) (l1 l2 : list A) : bool :=
+  match l1, l2 with
+  | [], [] => true
+  | x :: xs, y :: ys => eqb x y && py_list_eqb eqb xs ys
+  | _, _ => false
+  end.
+
+(* l1 < l2 on lists: the first position where the two differ (by ==) decides with <; a proper prefix is less *)
+Fixpoint py_list_ltb {A} (ltb eqb : A -> A -> bool) (l1 l2 : list A) : bool :=
+  match l1, l2 with
+  | [], [] => false
+  | [], _ :: _ => true
+  | _ :: _, [] => false
+  | x :: xs, y :: ys => if eqb x y then py_list_ltb ltb eqb xs ys else ltb x y
+  end.
